@@ -16,7 +16,9 @@ LEXICON = ["NULL", "Null", "null", "TRUE", "true", "False", "END", "end", "End",
            "12:00Z", "12:00+01", "12:00-01", "12:00+01:30", "12:00+13", "2001-01-01T12:00", "2001-01-01T12:00:00.5Z",
            "2001-001T12:00:60", "2001-01-01T12:00-05:30", "2001-01-01T", "T12:00", "-", "+", "--", "a", "a_b", "a-b",
            "N/A", "a:b", "^P", "ns:k", "x+y", "a_", "_a", "9a", "a.b", "'abc'", "\"a b\"", "'a", "''", "\"\"",
-           "<m>", "/*", "*/", "a/*b", "#", "a#b", "&", "é", "a\xa0b"]
+           "<m>", "/*", "*/", "a/*b", "#", "a#b", "&", "é", "a\xa0b", "1.5E+3", "1E+5", "-1e+16", "-2.5E-20", "1e+308", "1e+309", "sNaN", "-sNaN"]
+# judged as they stand, not mutated (long): integers around the float range, many fraction digits
+LONG_WORDS = ["1" + "0" * 308, "-9" * 160, "1" + "0" * 400, "0." + "3" * 60, "16#" + "F" * 70 + "#"]
 
 
 def tools(d):
@@ -90,14 +92,16 @@ def record(job):
         except Exception as e:
             ev["decoded"], ev["dstr"] = "!other", [ord(c) for c in type(e).__name__]
         # the same text as the lexer hands it to the parser, and as a parameter name in a real load
-        ev["lexdiff"], ev["nameok"] = [], False
-        plain = s and not any(c in s for c in " \t\n\r\v\f") and len(s) < 40
+        ev["lexdiff"], ev["nameok"], ev["lexsplit"] = [], False, False
+        plain = s and not any(c in s for c in " \t\n\r\v\f") and s[0] not in "'\""
         if plain:
             from pvl.lexer import lexer
             try:
                 toks = list(lexer(s, g=g, d=dec))
             except Exception:
                 toks = []
+            if ev["sv"] and not (len(toks) == 1 and str(toks[0]) == s):
+                ev["lexsplit"] = True       # a simple value must come out of the lexer as one token
             if len(toks) == 1 and str(toks[0]) == s:
                 lt = toks[0]
                 for name, f in (("q", lt.is_quoted_string), ("nd", lt.is_non_decimal), ("dec", lt.is_decimal), ("dt", lt.is_datetime),
@@ -164,6 +168,7 @@ def run_classes(ctx, rep, maxlen, with_mutations=True):
         # the domain of the property: non-empty token texts without white space unless quoted
         extra = {w for w in extra if w and (not any(ch in " \t\n\r\v\f" for ch in w) or (w[0] in "'\"" and w[-1] == w[0] and len(w) > 1))}
         texts += sorted(extra - set(texts))
+        texts += LONG_WORDS
     jobs = [(d, s) for s in texts for d in loaders.CONFIGS]
     evs = pool_map(record, jobs, chunksize=500)
     batches = list(chunks(evs, 20000))
